@@ -5,6 +5,7 @@
 //! `harness record <what>` drives the real code and records traces for TLC to validate
 mod eval;
 mod rng;
+mod strategy;
 mod tree;
 mod util;
 
@@ -19,6 +20,7 @@ fn main() {
     match cmd.as_slice() {
         ["gen", "eval"] => eval::gen(&args),
         ["replay", "eval"] => eval::replay(&args),
+        ["replay", "trunc"] => strategy::replay_trunc(&args),
         other => {
             eprintln!("unknown command {other:?}");
             std::process::exit(2);
